@@ -362,3 +362,192 @@ Definition fan_ok (expect : N -> list msg) (chans : list N) (impl : list (list m
 
 Definition judge_fan (ops : list op) (msgs : list msg) (chans : list N) (impl : list (list msg)) : bool :=
   fan_ok (recv_a (fst (run_a a_init ops)) msgs) chans impl.
+
+(* ================================================================================================
+   Concurrent use of the table (comm/p2p/subscription.go: every SubscribeTo / UnSubscribeFrom /
+   GetSubscribers runs under the manager's mutex, so each is one atomic step on the shared table;
+   comm/p2p/libp2p.go: Libp2pCommunication is copied by value on every call, the copies share the
+   map AND the mutex).  Several threads, each running its own sequential program; a thread cancels
+   only subscriptions it made itself (Unsub k = the k-th Sub of THAT thread) and a channel is
+   subscribed by one thread only ("owned").  Whatever the interleaving, the specification then fixes
+     - how often each of its own channels occurs in anything a thread looks up (its own history
+       alone decides that), and an upper bound for foreign channels;
+     - the table once all threads have finished.
+   ================================================================================================ *)
+
+Fixpoint nth_sub_pair (ops : list op) (k : nat) : option (string * N) :=
+  match ops with
+  | [] => None
+  | Sub s t _ _ :: r => match k with O => Some (s, t) | S k' => nth_sub_pair r k' end
+  | _ :: r => nth_sub_pair r k
+  end.
+
+(* the (session, type) a thread looks up after an operation *)
+Definition op_pair (own : list op) (o : op) : option (string * N) :=
+  match o with
+  | Sub s t _ _ => Some (s, t)
+  | Deliver s t => Some (s, t)
+  | Unsub k => nth_sub_pair own k
+  end.
+
+Definition owns (own : list op) (c : N) : bool :=
+  existsb (fun o => match o with Sub _ _ _ c' => N.eqb c' c | _ => false end) own.
+
+(* the channels ever subscribed to (s, t) by the operations [all], with multiplicity
+   (nested ifs: evaluation in the kernel is strict, the string comparison is the expensive one) *)
+Definition sub_chans (s : string) (t : N) (all : list op) : list N :=
+  flat_map (fun o => match o with
+                     | Sub s' t' _ c => if N.eqb t' t then if String.eqb s' s then [c] else [] else []
+                     | _ => []
+                     end) all.
+
+(* one lookup by the thread with program [own]: v = the channels found (any order); mine = the
+   channels its own live subscriptions put on the looked-up (session, type); cand = the channels
+   ever subscribed to that (session, type) by anybody *)
+Definition look_ok (own : list op) (cand mine v : list N) : bool :=
+  forallb (fun c => if owns own c then Nat.eqb (copies c v) (copies c mine)
+                    else Nat.leb (copies c v) (copies c cand))
+          (v ++ mine).
+
+Section ThreadJudge.
+  Context {X : Type}.
+  Variable stepX : X -> op -> X.
+  Variable subsX : X -> string -> N -> list N.
+  Variable candf : string -> N -> list N.
+  Variable own : list op.
+
+  (* impl: per operation the lookups made right after it ([view] or, for a delivery, [view; receipts]) *)
+  Fixpoint thread_ok_gen (st : X) (ops : list op) (impl : list (list (list N))) : bool :=
+    match ops, impl with
+    | [], [] => true
+    | o :: r, ob :: impl' =>
+        let st' := stepX st o in
+        match op_pair own o with
+        | Some (s, t) =>
+            let cand := candf s t in
+            let mine := subsX st' s t in
+            negb (Nat.eqb (List.length ob) 0) && forallb (look_ok own cand mine) ob
+        | None => true
+        end && thread_ok_gen st' r impl'
+    | _, _ => false
+    end.
+End ThreadJudge.
+
+Definition thread_ok (all own : list op) (impl : list (list (list N))) : bool :=
+  thread_ok_gen step_a (fun st s t => spec_subscribers s t (fst st)) (fun s t => sub_chans s t all)
+                own a_init own impl.
+
+Definition counts_eqb (a b : list N) : bool :=
+  forallb (fun c => Nat.eqb (copies c a) (copies c b)) (a ++ b).
+
+(* the table when every thread has finished: the live subscriptions of all of them *)
+Definition conc_final (s : string) (t : N) (ths : list (list op)) : list N :=
+  flat_map (fun ops => spec_subscribers s t (fst (run_a a_init ops))) ths.
+
+(* The judge of a concurrent run: the process survived, no data race on the table was reported,
+   every lookup of every thread and the final table are the specified ones. *)
+Definition judge_conc (ths : list (list op)) (impl : list (list (list (list N)))) (U : univ)
+           (final : list (list N)) (crashed : bool) (races : nat) : bool :=
+  negb crashed && Nat.eqb races 0 &&
+  all2 (fun own ob => thread_ok (List.concat ths) own ob) ths impl &&
+  all2 (fun p v => counts_eqb v (conc_final (fst p) (snd p) ths)) U final.
+
+(* the same function, evaluated faster: sub_chans is computed once per pair of U *)
+Definition cand_cache := list (string * N * list N).
+Definition build_cache (U : univ) (all : list op) : cand_cache :=
+  map (fun p => (fst p, snd p, sub_chans (fst p) (snd p) all)) U.
+Fixpoint cache_get (tb : cand_cache) (all : list op) (s : string) (t : N) : list N :=
+  match tb with
+  | [] => sub_chans s t all
+  | (s', t', l) :: r => if N.eqb t' t then if String.eqb s' s then l else cache_get r all s t
+                        else cache_get r all s t
+  end.
+
+Definition judge_conc_fast (ths : list (list op)) (impl : list (list (list (list N)))) (U : univ)
+           (final : list (list N)) (crashed : bool) (races : nat) : bool :=
+  let all := List.concat ths in
+  let tb := build_cache U all in
+  negb crashed && Nat.eqb races 0 &&
+  all2 (fun own ob => thread_ok_gen step_a (fun st s t => spec_subscribers s t (fst st))
+                                    (cache_get tb all) own a_init own ob) ths impl &&
+  all2 (fun p v => counts_eqb v (conc_final (fst p) (snd p) ths)) U final.
+
+(* ---- the model of a concurrent run: a schedule picks the thread that takes the next atomic step
+   on the ONE shared table.  g_hist is the history of the shared table (thread-local handles
+   translated to the shared table's handles through th_hm); th_obs is what the thread looked up
+   right after each of its operations; g_tl (ghost) lists the live subscriptions tagged with the
+   thread and the thread-local handle. ---- *)
+
+Record thr := mk_thr { th_ops : list op; th_done : nat; th_hm : list nat; th_obs : list (list (list N)) }.
+Record gst := mk_gst { g_hist : list op; g_next : nat; g_thr : list thr; g_tl : list (nat * sub) }.
+
+Fixpoint upd {A : Type} (l : list A) (i : nat) (x : A) : list A :=
+  match l, i with
+  | [], _ => []
+  | _ :: r, O => x :: r
+  | y :: r, S i' => y :: upd r i' x
+  end.
+
+Definition obs_of (tbl : list entry) (own : list op) (o : op) : list (list N) :=
+  match op_pair own o with
+  | Some (s, t) => let v := sort (subscribers s t tbl) in
+                   match o with Deliver _ _ => [v; v] | _ => [v] end
+  | None => []
+  end.
+
+Definition sched_step (g : gst) (i : nat) : gst :=
+  match nth_error (g_thr g) i with
+  | None => g
+  | Some th =>
+      match nth_error (th_ops th) (th_done th) with
+      | None => g                                  (* the thread has finished *)
+      | Some o =>
+          let k := List.length (th_hm th) in
+          let '(gops, hm', n', tl') :=
+            match o with
+            | Sub s t u c => ([o], th_hm th ++ [g_next g], S (g_next g), g_tl g ++ [(i, mk_sub k s t c)])
+            | Unsub j => (match nth_error (th_hm th) j with Some gj => [Unsub gj] | None => [] end,
+                          th_hm th, g_next g,
+                          filter (fun x => negb (Nat.eqb (fst x) i && Nat.eqb (a_k (snd x)) j)) (g_tl g))
+            | Deliver _ _ => ([o], th_hm th, g_next g, g_tl g)
+            end in
+          let hist' := g_hist g ++ gops in
+          let ob := obs_of (fst (run_c unwrap c_init hist')) (th_ops th) o in
+          mk_gst hist' n' (upd (g_thr g) i (mk_thr (th_ops th) (S (th_done th)) hm' (th_obs th ++ [ob]))) tl'
+      end
+  end.
+
+Definition g_init (ths : list (list op)) : gst :=
+  mk_gst [] O (map (fun ops => mk_thr ops O [] []) ths) [].
+
+Definition sched (sigma : list nat) (ths : list (list op)) : gst := fold_left sched_step sigma (g_init ths).
+
+(* how many operations of its program thread i has done *)
+Definition progress (g : gst) (i : nat) : nat :=
+  match nth_error (g_thr g) i with Some th => th_done th | None => O end.
+
+Definition own_state (g : gst) (ths : list (list op)) (i : nat) : astate :=
+  run_a a_init (firstn (progress g i) (nth i ths [])).
+
+(* channels are subscribed by one thread only *)
+Definition wf_own (ths : list (list op)) : Prop :=
+  forall i j c, i <> j -> owns (nth i ths []) c = true -> owns (nth j ths []) c = true -> False.
+
+(* boolean form of wf_own (what the generator guarantees: channel numbers carry the thread) *)
+Definition chans_of (ops : list op) : list N :=
+  flat_map (fun o => match o with Sub _ _ _ c => [c] | _ => [] end) ops.
+
+Fixpoint wf_ownb (ths : list (list op)) : bool :=
+  match ths with
+  | [] => true
+  | x :: r => forallb (fun c => forallb (fun y => negb (owns y c)) r) (chans_of x) && wf_ownb r
+  end.
+
+(* a schedule that lets every thread finish *)
+Definition complete (g : gst) (ths : list (list op)) : Prop :=
+  forall i, (i < List.length ths)%nat -> progress g i = List.length (nth i ths []).
+
+(* what the model of a concurrent run observes: per thread its lookups, and the table at the end *)
+Definition conc_obs (g : gst) : list (list (list (list N))) := map th_obs (g_thr g).
+Definition conc_final_obs (g : gst) (U : univ) : list (list N) :=
+  map (fun p => sort (subscribers (fst p) (snd p) (fst (run_c unwrap c_init (g_hist g))))) U.
